@@ -106,6 +106,27 @@ def _facts(ctx, fq):
     return keys, cols, called
 
 
+def rule_std_keys_siblings(ctx, R, require=60):
+    """the single and the batch creator of an element consume the same standard-type keys (callable from C25 as well)"""
+    cache = {}
+    for single, batch in STD_PAIRS:
+        for fq in (single, batch):
+            cache[fq] = _facts(ctx, fq)
+    for single, batch in STD_PAIRS:
+        ks, kb = cache[single][0], cache[batch][0]
+        if not ks or not kb:
+            ctx.fail(f"no standard-type key reads recognised in {single if not ks else batch}")
+        if "*" in ks or "*" in kb:
+            ks = kb = ks | kb
+        sn, bn = single.split(":")[1], batch.split(":")[1]
+        for k in sorted(ks | kb):
+            ok = k in ks and k in kb
+            ctx.ob(R, f"{batch.split(':')[0]}::{bn}::{k}", ok,
+                   f"std-type key '{k}': {sn}={'read' if k in ks else 'NOT read'}, {bn}={'read' if k in kb else 'NOT read'}",
+                   ctx.repo.func(batch if k not in kb else single).loc())
+    ctx.require_min(R, require)
+
+
 def run(ctx):
     ctx.assume("decides sibling agreement of key sets, column sets, check calls, signatures and predicate structure; "
                "not the values written")
@@ -226,6 +247,7 @@ def run(ctx):
     ors = [n for n in ast.walk(fs.node) if isinstance(n, ast.BoolOp) and isinstance(n.op, ast.Or)]
     ctx.ob(R5, f"{C}._utils::_cost_existance_check::disjunction", len(ors) >= 2, "single check combines poly/pwl with 'or'", fs.loc())
     rule_series_align(ctx)
+    rule_batch_guards(ctx)
 
 
 def rule_series_align(ctx):
@@ -277,6 +299,47 @@ def rule_series_align(ctx):
            "every entry passes _check_entry", fs.loc())
 
 
+def rule_batch_guards(ctx):
+    R = "BATCH-GUARD"
+    ctx.rule(R, "_get_multiple_index_with_check returns a passed index vector only after the duplicate check and the collision check; "
+                "create_lines decides the optional zero-sequence / alpha columns over all given types (any(...)), not from the first "
+                "one; create_transformers3w lets an explicit tap_changer_type argument override the standard type (assigned after the "
+                "update from the type)")
+    U = f"{C}._utils"
+    fi = ctx.repo.func(f"{U}:_get_multiple_index_with_check")
+    body = fi.node.body
+    raises = [i for i, st in enumerate(body) if isinstance(st, ast.If) and any(isinstance(x, ast.Raise) for x in ast.walk(st))]
+    early = []
+    for i, st in enumerate(body):
+        for x in ast.walk(st):
+            if isinstance(x, ast.Return) and isinstance(x.value, ast.Name) and x.value.id == "index" and (not raises or i < max(raises)):
+                early.append(x)
+    ctx.ob(R, f"{U}::_get_multiple_index_with_check::checks-dominate-return", len(raises) >= 2 and not early,
+           "the passed index is returned only after both checks" if len(raises) >= 2 and not early else
+           f"`return index` at line {early[0].lineno if early else '?'} precedes a check: duplicate or colliding indices are accepted on that path",
+           fi.loc(early[0]) if early else fi.loc())
+    fl = ctx.repo.func(f"{C}.line_create:create_lines")
+    n = 0
+    for node in ast.walk(fl.node):
+        if isinstance(node, ast.If):
+            t = ast.unparse(node.test)
+            if "lineparam" in t and any(p in ast.unparse(node) for p in ("r0_ohm_per_km", "alpha")) and " in " in t:
+                n += 1
+                ok = "lineparam[0]" not in t.replace(" ", "")
+                ctx.ob(R, f"{C}.line_create::create_lines::optional-columns#{n}", ok,
+                       f"`{t[:90]}`" if ok else f"`{t[:90]}` looks at the first standard type only: the optional data of the other types is dropped", fl.loc(node))
+    if n < 1:
+        ctx.fail("create_lines: tests for the optional standard-type columns not found")
+    ft = ctx.repo.func(f"{C}.trafo_create:create_transformers3w")
+    upd = [st.lineno for st in ast.walk(ft.node) if isinstance(st, ast.Expr) and isinstance(st.value, ast.Call) and ast.unparse(st.value.func) == "params.update"
+           and "std_params" in ast.unparse(st.value)]
+    expl = [st for st in ast.walk(ft.node) if isinstance(st, ast.Assign) and ast.unparse(st.targets[0]).replace('"', "'") == "params['tap_changer_type']"]
+    ok = bool(upd) and bool(expl) and all(st.lineno > max(upd) for st in expl)
+    ctx.ob(R, f"{C}.trafo_create::create_transformers3w::explicit-after-type", ok,
+           "explicit tap_changer_type assigned after the update from the standard type" if ok else
+           "the explicit tap_changer_type is assigned before params.update(<standard type>): the type's value overwrites the argument", ft.loc(expl[0]) if expl else ft.loc())
+
+
 def variants(repo):
     t = "pandapower/create/trafo_create.py"
     l = "pandapower/create/line_create.py"
@@ -290,6 +353,8 @@ def variants(repo):
         V("batch lines drop zero sequence", l, in_function("create_lines", lambda s: s.replace('            for param in ("r0_ohm_per_km", "x0_ohm_per_km", "c0_nf_per_km"):\n                entries[param] = lineparam[param]\n', '            pass\n', 1)), "create_lines::x0_ohm_per_km"),
         V("batch dc lines drop alpha", l, in_function("create_lines_dc", lambda s: s.replace('        if "alpha" in net.line.columns and "alpha" in lineparam:\n            entries["alpha"] = lineparam["alpha"]\n', '', 1)), "create_lines_dc::alpha"),
         V("pwl power_type filter without guard", u, in_function("_costs_existance_check", replace_once("        if isinstance(power_type, str):\n            pwl_exist &= (net.pwl_cost.power_type == power_type).values", "        pwl_exist &= (net.pwl_cost.power_type == power_type).values")), "power-type-filter"),
+        V("empty table skips the duplicate check", u, replace_once("    u, c = uni(index, return_counts=True)\n", "    if not len(net[table]):\n        return index\n    u, c = uni(index, return_counts=True)\n"), "BATCH-GUARD"),
+        V("zero sequence decided by the first type", l, in_function("create_lines", lambda s: s.replace('        for param in ("r0_ohm_per_km", "x0_ohm_per_km", "c0_nf_per_km"):\n            if any(param in line_param_dict for line_param_dict in lineparam):\n', '        if "r0_ohm_per_km" in lineparam[0]:\n            for param in ("r0_ohm_per_km", "x0_ohm_per_km", "c0_nf_per_km"):\n', 1)), "BATCH-GUARD"),
         V("series kept by label on partial overlap", u, replace_once("not np_all(isin(val.index, index))", "not np_any(isin(val.index, index))"), "SERIES-ALIGN"),
         V("twin: any label outside", u, replace_once("not np_all(isin(val.index, index))", "np_any(~isin(val.index, index))"), None),
         V("cost pred and", u, in_function("_costs_existance_check", replace_once("return sum(poly_exist) + sum(pwl_exist)", "return sum(poly_exist) & sum(pwl_exist)")), "COST-PRED"),
